@@ -43,14 +43,17 @@ _EXPIRED = ("aof.go LoadAofFile drops every LOCK record whose OWN deadline has p
             "resume and a plain recovery all go through it, so a follower synchronised from files holds depth-1 / the older value while the "
             "live leader holds more; the follower equals what a RECOVERY of the leader's own log yields (checked with a shadow process), i.e. the "
             "root cause is the load filter (recovery class, C07), visible through replication")
-_KILLFILE = ("UNTRIAGED, rare and timing dependent (seen in 3 of ~60 runs of scenario `filekill`, seeds 7 and 11): the follower is killed in the middle "
-             "of a (throttled) file phase, restarted on the same half-written dir, told ERR_NOT_FOUND and transferred from scratch; afterwards it is "
-             "connected and caught up, holds the same keys / LockIds / depths as the leader, but ONE key carries a value (set earlier by a lock that "
-             "has since been released) where the leader's key has none. The follower's append file contains every record of that key in the leader's "
-             "order; a short-lived (3 s) lock on the same key whose record copied that value was within a second of its deadline during the transfer. "
-             "Root cause not isolated (value lifetime on the load path vs the live path)")
+_STALEVAL = ("UNTRIAGED, rare and timing dependent (3 of ~60 runs of scenario `filekill` on a quiet machine under the first comparison, 1 of 16 under "
+             "load with the hardened comparison — there in the plain STREAM phase, before any kill): follower connected and caught up, same keys / "
+             "LockIds / depths as the leader, but ONE key still carries a value (set earlier by a lock that has since been released, the key "
+             "having been completely free in between on the leader) where the leader's key has none; stable over ≥ 3 comparisons ≥ 1.5 s apart. "
+             "The follower's own append file holds every record of that key in the leader's order, so the difference arises when the follower "
+             "APPLIES `last UNLOCK of the key` followed by `LOCK without data` (value lifetime on the replay path vs the live path); the "
+             "deterministic patterns tried (lock/unlock/relock/update bursts on 240 keys) do not reproduce it. Formerly reported as "
+             "C09:follower-diverged:killed-in-file-phase (same symptom; the kill is not the cause)")
 PENDING_FINDINGS = {
-    "C09:follower-diverged:killed-in-file-phase": _KILLFILE,
+    "C09:follower-diverged:stale-value": _STALEVAL,
+    "C09:follower-diverged:killed-in-file-phase": _STALEVAL,
     "C09:follower-missing-record:cut-before-first-file-record": _EARLY,
     "C09:follower-diverged:expired-record:equals-leader-recover": _EXPIRED,
     "C09:follower-diverged:expired-record": _EXPIRED + " [in this run the shadow recovery, which is time dependent, did not match exactly]",
@@ -153,6 +156,8 @@ def process_level(ctx):
         ep["scenarios"].append({"kind": r.label, "seed": r.seed, "wall_s": round(r.wall, 1), "comparisons": r.compares, "ops": r.wl.ops if r.wl else 0,
                                 "steps": r.trace, "monitors": [m[0] for m in r.mon]})
         ep["state_comparisons"] += r.compares
+        if getattr(r, "deadline2", 0):
+            ep["deadline_off_by_2_observations"] = ep.get("deadline_off_by_2_observations", 0) + r.deadline2
         ep["leader_ops"] += r.wl.ops if r.wl else 0
         for k, v in (r.wl.kinds if r.wl else {}).items():
             ep["op_kinds"][k] = ep["op_kinds"].get(k, 0) + v
